@@ -732,6 +732,15 @@ class _Eval:
             ft = ("attr", ("global", "super"), f.attr)
         else:
             ft = self.expr(f)
+        if ft == ("global", "any") and len(args) == 1 and not kws and args[0][0] == "comp" and len(args[0][3]) == 1 and not args[0][3][0][2]:
+            # any(x.startswith(p) for p in P) asks the same as x.startswith(tuple(p for p in P)): one canonical spelling (the tuple form)
+            c_ = args[0]
+            el = c_[2]
+            if (el[0] == "call" and el[1][0] == "attr" and el[1][2] in ("startswith", "endswith") and len(el[2]) == 1 and not el[3]
+                    and not any(x[0] == "elem" and len(x) == 3 and x[2] == c_[4] for x in walk(el[1][1]))):
+                return ("call", ("attr", el[1][1], el[1][2]), (("call", ("global", "tuple"), (("comp", "gen", el[2][0], c_[3], c_[4]),), ()),), ())
+        if ft[0] == "attr" and ft[2] == "to_numpy" and not args and not kws:
+            return ("attr", ft[1], "values")  # frame.to_numpy() and frame.values are the same array: one canonical spelling
         if (kws or args) and self.b.resolver is not None and not any(a_[0] == "starred" for a_ in args):
             # a call of a repository function: keywords that name the next positional parameters are the same call as the positional
             # form - one canonical spelling (leading positional arguments, the rest by keyword)
